@@ -66,6 +66,31 @@ func H_C17_table(row, maxsig int) {
 		verifrt.Assert(verifrt.SameString(name, s), "non-numeric-text-unchanged")
 		verifrt.Assert(add == nil, "non-numeric-no-parameter")
 	}
+	// the same text through the entry point callers see
+	code := verifrt.I32()
+	var e error
+	pn = verifrt.Catch(func() { e = RpcErrorToNative(&objects.RpcError{ErrorCode: code, ErrorMessage: s}) })
+	verifrt.Assert(!pn, "table-native-no-panic")
+	if pn {
+		return
+	}
+	r, isR := e.(*ErrResponseCode)
+	verifrt.Assert(isR, "table-structured-error")
+	if !isR {
+		return
+	}
+	verifrt.Assert(r.Code == int(code), "table-code-is-server-code")
+	if ok {
+		verifrt.Assert(verifrt.SameString(r.Message, pre+"X"+suf), "structured-message-has-X")
+		got, isInt := r.AdditionalInfo.(int)
+		verifrt.Assert(isInt, "structured-parameter-is-int")
+		if isInt {
+			verifrt.Assert(got == v, "structured-parameter-value")
+		}
+	} else {
+		verifrt.Assert(verifrt.SameString(r.Message, s), "structured-non-numeric-text-unchanged")
+		verifrt.Assert(r.AdditionalInfo == nil, "structured-non-numeric-no-parameter")
+	}
 }
 
 // refParam: does the concrete text match a table row with a numeric parameter?
@@ -122,8 +147,11 @@ func H_C17_catalogue() {
 		}
 		r := e.(*ErrResponseCode)
 		verifrt.Assert(r.Code == 400, "catalogue-code")
-		if _, numeric := refParam(name); numeric {
-			continue // an entry that itself carries a numeric parameter (FILE_PART_0_MISSING) is the parametrised case
+		if v, numeric := refParam(name); numeric {
+			// an entry that itself carries a numeric parameter (FILE_PART_0_MISSING) is the parametrised case
+			got, isInt := r.AdditionalInfo.(int)
+			verifrt.Assert(isInt && got == v, "catalogue-numeric-entry-is-parametrised")
+			continue
 		}
 		verifrt.Assert(r.Message == name, "catalogue-name-kept")
 		verifrt.Assert(r.Description == desc, "catalogue-description")
